@@ -38,7 +38,7 @@ PROPS = {
         "expect_probes": ["c10.checked", "c10.ns_answers", "c10.ns_with_address", "c10.a_answers"],
     },
     "C14": {
-        "rule": "ledger of every DNS query datagram the real server receives vs every answer it emits (one answer per received query, same asker and id); "
+        "rule": "ledger of every DNS query datagram the real server receives vs every answer it emits (one answer per received query, same asker, id and question); "
                 "in runs without duplicating faults additionally <=2 unanswered ping/data queries per asker after every server step; "
                 "non-trivial = handshake completed and both hold slots were occupied at least once; distinct = distinct run fingerprints",
         "jobs": [
@@ -66,7 +66,9 @@ PROPS = {
     "C06": {
         "rule": "real iodine client (ASan+UBSan) against the real server with a hostile on-path party replacing a seeded subset of answers (at handshake steps, login, or in the tunnel) by "
                 "generated hostile answers (hostile tunnel payloads in well-formed DNS for every type/codec; RDLENGTH games; bad TXT chunking; hostile CNAME names; 1-300 MX/SRV records with odd "
-                "preferences and pointer expansion; lying counts; truncation) plus off-path spoofed answers; oracle: no sanitizer report, crash or hang in the client. non-trivial = >=1 answer replaced or spoofed; "
+                "preferences and pointer expansion; lying counts; truncation) plus off-path spoofed answers and raw frames; and against a protocol-aware hostile model server (fakesrv) that keeps the handshake going while "
+                "choosing hostile field values, payloads, malformed answers or silence per step and lies as a downstream sender; oracle: no sanitizer report, crash or hang in the client "
+                "(spoof focus: handshake completes and both tun streams exact). non-trivial = >=1 answer replaced or spoofed, or >=3 protocol steps served by the model server; "
                 "distinct = distinct run fingerprints",
         "jobs": [
             {"scen": "hostile_cli", "sets": {}, "quick": 4000, "thorough": 300000},
@@ -80,7 +82,7 @@ PROPS = {
     },
     "C13": {
         "rule": "real client login against the real server behind an on-path party that replaces every login answer with a generated hostile reply (four fields from a grammar of shell metacharacters, "
-                "inet_addr-accepted oddities, out-of-range numbers) in all downstream encodings; every system() argument of the client is tokenised: fixed words, strict dotted quads, mtu in 201..1500 only. "
+                "inet_addr-accepted oddities, near-valid spellings, out-of-range numbers) in all downstream encodings, and against the hostile model server whose login replies come from the same grammar; every system() argument of the client is tokenised: fixed words, strict dotted quads, mtu in 201..1500 only. "
                 "non-trivial = >=1 login answer replaced; distinct = distinct run fingerprints",
         "jobs": [
             {"scen": "hostile_cli", "sets": {"focus": "login"}, "quick": 6000, "thorough": 300000},
@@ -220,7 +222,7 @@ LEVEL_TEXT = {
     "C04": "Exploration: seeded multi-session histories with spoofers and expiry/reuse timing, judged by a wire-level model of slot ownership and a reference downstream reassembler.",
     "C12": "Exploration by differential replay: exact determinism of the simulator turns the uncontrolled stale receive-buffer content into an explicit input; every pair must behave identically.",
     "C05": "Exploration: sanitizer-instrumented real server inside live sessions under generated hostile datagram sequences (millions of datagrams per thorough run); a clean batch is evidence of absence for the generated classes only.",
-    "C06": "Exploration: sanitizer-instrumented real client with hostile answers substituted at every handshake step and in the tunnel; sampling over answer shapes and positions.",
+    "C06": "Exploration: sanitizer-instrumented real client with hostile answers substituted at every handshake step and in the tunnel, and against a hostile model server that serves the whole protocol with hostile field values; sampling over answer shapes, positions and per-step choices.",
     "C13": "Exploration: every system() argument produced by the real client under generated hostile login replies is validated token by token.",
     "C01": "Exploration: thousands of seeded end-to-end sessions of the unmodified client(s) and server under loss, duplication, reordering and delay; every tun write is compared byte for byte against the ledger of packets read from a peer's tun. Sampling over (configuration x traffic x fault schedule); a clean batch is evidence, not proof.",
     "C02": "Exploration: (a) clean-path exactly-once in-order delivery of every accepted fitting packet, (b) bounded-time recovery (eventually-always under continuing traffic) after a 2-40 s fault prefix, over seeded configurations and fault schedules in virtual time.",
